@@ -217,6 +217,13 @@ func (s *Datastore) read(ctx context.Context, store string, filter storage.ReadF
 				"user_relation": userRelation,
 			})
 		}
+		if userRelation == "" && userObjectID != "" {
+			// A complete user without a relation (e.g. "group:1") denotes that object only,
+			// not the usersets of that object (e.g. "group:1#member").
+			sb = sb.Where(sq.Eq{
+				"user_relation": "",
+			})
+		}
 	}
 
 	if len(filter.Conditions) > 0 {
@@ -823,6 +830,10 @@ func (s *Datastore) ReadStartingWithUser(
 		}
 		if userRelation != "" {
 			targetUser["user_relation"] = userRelation
+		} else {
+			// An entry without a relation denotes the object itself (or a typed wildcard),
+			// not the usersets of that object.
+			targetUser["user_relation"] = ""
 		}
 		targetUsersArg = append(targetUsersArg, targetUser)
 	}
